@@ -225,6 +225,13 @@ def run(S):
         'lexer fact: whitespace tokens consist of char::is_whitespace characters and are never adjacent',
         'expression converters are opaque; the attribute store holds no format-disabled mark (C07 decides that path)',
     ]
+    # whole documents with equations through the real printer, the interpreted renderer and the real parser: blanks between math siblings, the display
+    # flag of every equation and the nesting of math nodes are those of the source (what evaluation sees; blanks around sub/superscript, fraction and
+    # root operators are exempt)
+    from . import reparse as _rp, deep as _dp
+    _docs = [d_ for d_ in _rp.EVAL_DOCS + _rp.MISC_DOCS + _dp.DOCS + _dp.CODE_DOCS + _rp.corpus_docs(S) if '$' in d_]
+    _fr, _covr = _rp.explore(S, _docs, tabs=(2,) if S.tier == 'quick' else (2, 4), widths=(0, 40, 1 << 30) if S.tier == 'quick' else (0, 20, 40, 80, 120, 1 << 30), prop='C09')
+    _rp.report(S, 'C09', _fr)
     return S.finish(level='other', explanation=EXPLANATION, trusted=['mirsym encoder', 'typst-syntax contracts', 'pretty Doc algebra'])
 
 
